@@ -248,7 +248,7 @@ def rule_R2_R3_R4(ctx):
                   "the supported_versions extension is honoured only for some legacy_version values (%s): a ClientHello that carries the extension with another "
                   "legacy version is fingerprinted by its legacy field" % "; ".join(T.pp(c[1])[:60] for c in others), ctx.loc(b, blk))
         depends = any(x[0] in ("param", "call") and x is not term for x in T.walk(term)) and not (term[0] == "agg" and not term[4])
-        ctx.check(depends, "R4", "supported_versions:contents",
+        ctx.check(depends, "R4", "supported_versions:contents" + ("" if depends else ":constant=" + T.pp(term)[:30]),
                   "version derived from the supported_versions list",
                   "when the supported_versions extension is present the version is the constant %s regardless of the versions listed: a client offering only "
                   "TLS 1.2 (or GREASE + 1.2) in supported_versions is fingerprinted as t13" % T.pp(term), ctx.loc(b, blk))
